@@ -8,7 +8,7 @@ from ..vec import El, Sc, Vec
 from .c17 import equal_flags, t10
 
 DATA_CARRIERS = ['list_none', 'list_nan', 'tuple_nan', 'ndarray', 'series', 'masked_nan', 'masked']
-TIME_CARRIERS = ['dt64', 'dt64_s', 'epoch_list', 'epoch_array', 'series', 'series_tz', 'dtindex', 'dtindex_tz', 'pydatetime']
+TIME_CARRIERS = ['dt64', 'dt64_s', 'epoch_list', 'epoch_array', 'series', 'series_tz', 'dtindex', 'dtindex_tz', 'pydatetime', 'dtindex_s', 'dtindex_ms', 'series_s', 'series_us']
 
 
 def tests():
@@ -52,6 +52,10 @@ def run(ck):
     pats = ['pmpp', 'ppmp'] if ck.tier != 'thorough' else ['pmpp', 'ppmp', 'mppp', 'pppm', 'pppp', 'pm', 'p']
     for test, uses_time, build in tests():
         for p in pats:
+            if len(p) < 2 and 'min_period' in build('list_none', 'dt64', p)[1]:
+                # one observation has no sampling interval: min_period / NaN cast to int is platform-defined in numpy (outside the model)
+                continue
+
             def run_one(dc, tc):
                 args, kw = build(dc, tc, p)
                 c = Case(test, args, kw, n=len(p), pat={}, meta={'class': f'{dc}/{tc}'},
